@@ -107,6 +107,75 @@ def _documented_table(model) -> List[Tuple[str, List[str]]]:
     return tab
 
 
+def _interp_extract(ctx: Ctx, model) -> Tuple[List[str], int]:
+    """_extract_data interpreted (sa.miniinterp) on small tables: cartesian, polar (radians and degrees) and both sets of
+    columns, in several column orders, every subset of negated columns, cells given as numbers or as decimal-comma strings.
+    Expected: each quantity parsed from its own column and negated under its own marker only; Re/Im take precedence;
+    otherwise Z = rect(|Z|, phase)."""
+    import cmath
+    import itertools
+    import math
+    from ..miniinterp import InterpRaise, Mini, module_globals
+    from ..nplite import NP_STUBS, NArr
+    ed = model.fi(DS, "_extract_data")
+
+    class _DF:
+        def __init__(self, rows):
+            self.values = rows
+            self.columns = []
+
+    class _Cmath:
+        rect = staticmethod(cmath.rect)
+    st = dict(NP_STUBS)
+    st.update({"cmath": _Cmath, "rect": cmath.rect, "deg_to_rad": lambda x: NArr(math.radians(v) for v in x) if isinstance(x, (NArr, list, tuple)) else math.radians(x),
+               "radians": lambda x: NArr(math.radians(v) for v in x) if isinstance(x, (NArr, list, tuple)) else math.radians(x), "Phase": float, "Phases": None, "type": type,
+               "cos": lambda x: NArr(math.cos(v) for v in x) if isinstance(x, (NArr, list, tuple)) else math.cos(x), "sin": lambda x: NArr(math.sin(v) for v in x) if isinstance(x, (NArr, list, tuple)) else math.sin(x)})
+    g = module_globals(ctx.repo.modules[DS].tree, st)
+    g.update(st)
+    base = {"frequency": [100.0, 10.0, 1.5], "real": [3.0, 4.25, 5.5], "imaginary": [-1.0, -2.5, 0.75], "magnitude": [2.0, 3.5, 4.0], "phase": [-0.5, 0.25, 1.0]}
+    problems: List[str] = []
+    n = 0
+    layouts = [("frequency", "real", "imaginary"), ("imaginary", "frequency", "real"), ("frequency", "magnitude", "phase"), ("phase", "magnitude", "frequency"),
+               ("frequency", "magnitude", "phase", "real", "imaginary"), ("real", "frequency", "phase", "imaginary", "magnitude"), ("frequency", "real"), ("frequency", "magnitude", "imaginary")]
+    for cols in layouts:
+        for neg in itertools.product((False, True), repeat=3):
+            for as_text in (False, True):
+                for degrees in (False, True):
+                    if degrees and "phase" not in cols:
+                        continue
+                    n += 1
+                    negs = dict(zip(("real", "imaginary", "phase"), neg))
+                    rows = []
+                    for r in range(3):
+                        row = []
+                        for c in cols:
+                            v = base[c][r]
+                            row.append(str(v).replace(".", ",") if as_text else v)
+                        rows.append(row)
+                    args = {"df": _DF(rows), "column_indices": {c: i for i, c in enumerate(cols)}, "negative_columns": {k: negs.get(k, False) for k in ("frequency", "real", "imaginary", "magnitude", "phase")},
+                            "path": "p", "degrees": degrees}
+                    try:
+                        out = Mini(g, max_steps=100000).call_function(ed.node, args)
+                        got: Any = [[float(x) for x in col] for col in out]
+                    except InterpRaise as e:
+                        got = f"raises {e.kind}"
+                    sgn = lambda k: -1.0 if negs.get(k) else 1.0
+                    if "real" in cols and "imaginary" in cols:
+                        want: Any = [base["frequency"], [sgn("real") * v for v in base["real"]], [sgn("imaginary") * v for v in base["imaginary"]]]
+                    elif "magnitude" in cols and "phase" in cols:
+                        zs = [cmath.rect(m_, (math.radians(sgn("phase") * p_) if degrees else sgn("phase") * p_)) for m_, p_ in zip(base["magnitude"], base["phase"])]
+                        want = [base["frequency"], [z.real for z in zs], [z.imag for z in zs]]
+                    else:
+                        want = "raises ValueError"
+                    if isinstance(want, str) and isinstance(got, str) and got.split()[-1] in ("ValueError", "UnsupportedFileFormat", "KeyError"):
+                        got = want  # an incomplete set of columns is refused; which of the library's errors is not part of the property
+                    same = got == want if isinstance(want, str) or isinstance(got, str) else (len(got) == 3 and all(len(a) == len(b) and all(abs(x - y) <= 1e-12 * max(1.0, abs(y)) for x, y in zip(a, b)) for a, b in zip(got, want)))
+                    if not same and len(problems) < 3:
+                        problems.append(f"columns {cols}, negated {[k for k, v in negs.items() if v]}, cells as {'decimal-comma text' if as_text else 'numbers'}, degrees={degrees}: "
+                                        f"(frequency, real, imaginary) = {got if isinstance(got, str) else [[round(x, 6) for x in c_] for c_ in got]} instead of {want if isinstance(want, str) else [[round(x, 6) for x in c_] for c_ in want]}")
+    return problems, n
+
+
 def check(ctx: Ctx) -> None:
     model = get_model(ctx.repo)
     ctx.modules_consulted.update({DS, DATA, f"{FMT}.csv", f"{FMT}.mpt", f"{FMT}.p00", f"{FMT}.dfr", f"{FMT}.i2b", f"{FMT}.dta", f"{FMT}.z", f"{FMT}.helpers"})
@@ -283,45 +352,58 @@ def check(ctx: Ctx) -> None:
 
     # ---------------- R6.2 ---------------------------------------------------------
     ed = model.fi(DS, "_extract_data")
-    lists = {"frequency": "frequency", "real": "real", "imaginary": "imaginary", "magnitude": "magnitude", "phase": "phase"}
-    negated = {"real": True, "imaginary": True, "phase": True, "magnitude": False, "frequency": False}
-    for key, lst in lists.items():
-        reads = [n for n in walk_ordered(ed.node) if isinstance(n, (ast.Assign, ast.AnnAssign)) and n.value is not None and norm(n.value) == f"row[column_indices['{key}']]"]
-        ctx.instance("R6.2", f"{key}: read, converted, negated={negated[key]}, appended to {lst}")
-        if len(reads) != 1:
-            ctx.violation("R6.2", f"_extract_data:{key}:read", DS, ed.node, f"_extract_data must read {key} from row[column_indices['{key}']] exactly once (found {len(reads)})")
-            continue
-        v = norm(reads[0].targets[0] if isinstance(reads[0], ast.Assign) else reads[0].target)
-        conv = [n for n in walk_ordered(ed.node) if isinstance(n, ast.Assign) and norm(n.targets[0]) == v and norm(n.value) == f"float(row[column_indices['{key}']].replace(',', '.'))"
-                and isinstance(parent(n), ast.If) and norm(parent(n).test) == f"type({v}) is str"]
-        negs = [n for n in walk_ordered(ed.node) if isinstance(n, ast.AugAssign) and norm(n.target) == v and isinstance(n.op, ast.Mult) and norm(n.value) == "-1"]
-        neg_ok = (len(negs) == 1 and isinstance(parent(negs[0]), ast.If) and norm(parent(negs[0]).test) == f"negative_columns['{key}']") if negated[key] else (len(negs) == 0)
-        app = [c for c in calls_in(ed.node) if norm(c.func) == f"{lst}.append" and c.args and norm(c.args[0]) == v]
-        order_ok = False
-        if conv and app and neg_ok:
-            seq = [id(x) for x in walk_ordered(ed.node)]
-            pos = lambda n: seq.index(id(n))
-            order_ok = pos(reads[0]) < pos(conv[0]) < pos(stmt_of(app[0])) and (not negs or pos(conv[0]) < pos(negs[0]) < pos(stmt_of(app[0])))
-            # same block (branch) for read and append
-            order_ok = order_ok and enclosing(reads[0], (ast.If, ast.For)) is enclosing(stmt_of(app[0]), (ast.If, ast.For))
-        if len(conv) == 1 and len(app) == 1 and neg_ok and order_ok:
+    extract_interpreted = True
+    try:
+        eprobs, en = _interp_extract(ctx, model)
+    except AnalysisError as e:
+        extract_interpreted = False
+        ctx.note(f"_extract_data not interpretable ({e}); decided from its shape instead")
+    if extract_interpreted:
+        ctx.instance("R6.2", f"_extract_data interpreted on {en} tables (column sets and orders × negated-column subsets × numbers/decimal-comma text × degrees)")
+        if eprobs:
+            ctx.violation("R6.2", "_extract_data:semantics", DS, ed.node, "_extract_data: " + eprobs[0])
+        else:
+            ctx.ok()
+    if not extract_interpreted:
+        lists = {"frequency": "frequency", "real": "real", "imaginary": "imaginary", "magnitude": "magnitude", "phase": "phase"}
+        negated = {"real": True, "imaginary": True, "phase": True, "magnitude": False, "frequency": False}
+        for key, lst in lists.items():
+            reads = [n for n in walk_ordered(ed.node) if isinstance(n, (ast.Assign, ast.AnnAssign)) and n.value is not None and norm(n.value) == f"row[column_indices['{key}']]"]
+            ctx.instance("R6.2", f"{key}: read, converted, negated={negated[key]}, appended to {lst}")
+            if len(reads) != 1:
+                ctx.violation("R6.2", f"_extract_data:{key}:read", DS, ed.node, f"_extract_data must read {key} from row[column_indices['{key}']] exactly once (found {len(reads)})")
+                continue
+            v = norm(reads[0].targets[0] if isinstance(reads[0], ast.Assign) else reads[0].target)
+            conv = [n for n in walk_ordered(ed.node) if isinstance(n, ast.Assign) and norm(n.targets[0]) == v and norm(n.value) == f"float(row[column_indices['{key}']].replace(',', '.'))"
+                    and isinstance(parent(n), ast.If) and norm(parent(n).test) == f"type({v}) is str"]
+            negs = [n for n in walk_ordered(ed.node) if isinstance(n, ast.AugAssign) and norm(n.target) == v and isinstance(n.op, ast.Mult) and norm(n.value) == "-1"]
+            neg_ok = (len(negs) == 1 and isinstance(parent(negs[0]), ast.If) and norm(parent(negs[0]).test) == f"negative_columns['{key}']") if negated[key] else (len(negs) == 0)
+            app = [c for c in calls_in(ed.node) if norm(c.func) == f"{lst}.append" and c.args and norm(c.args[0]) == v]
+            order_ok = False
+            if conv and app and neg_ok:
+                seq = [id(x) for x in walk_ordered(ed.node)]
+                pos = lambda n: seq.index(id(n))
+                order_ok = pos(reads[0]) < pos(conv[0]) < pos(stmt_of(app[0])) and (not negs or pos(conv[0]) < pos(negs[0]) < pos(stmt_of(app[0])))
+                # same block (branch) for read and append
+                order_ok = order_ok and enclosing(reads[0], (ast.If, ast.For)) is enclosing(stmt_of(app[0]), (ast.If, ast.For))
+            if len(conv) == 1 and len(app) == 1 and neg_ok and order_ok:
+                ctx.ok()
+            else:
+                ctx.violation("R6.2", f"_extract_data:{key}", DS, reads[0],
+                              f"_extract_data: {key} must be read from its column, converted with the decimal-comma rule, {'negated under its own marker, ' if negated[key] else ''}and appended to {lst} "
+                              f"(conversion {len(conv)}, negation ok {neg_ok}, append {len(app)}, order {order_ok})")
+        ctx.instance("R6.2", "precedence and polar conversion")
+        t = norm(ed.node)
+        br = [n for n in walk_ordered(ed.node) if isinstance(n, ast.If) and norm(n.test) == "'real' in column_indices and 'imaginary' in column_indices"]
+        good = len(br) == 1 and len(br[0].orelse) == 1 and isinstance(br[0].orelse[0], ast.If) and norm(br[0].orelse[0].test) == "'magnitude' in column_indices and 'phase' in column_indices"
+        good = good and "phase = deg_to_rad(phase)" in t and "Z: complex = cmath.rect(mag, phi)" in t and "for mag, phi in zip(magnitude, phase)" in t \
+            and "real.append(Z.real)" in t and "imaginary.append(Z.imag)" in t and "return (frequency, real, imaginary)" in t
+        dg = [n for n in walk_ordered(ed.node) if isinstance(n, ast.If) and norm(n.test) == "degrees"]
+        good = good and len(dg) == 1 and norm(dg[0].body[0]) == "phase = deg_to_rad(phase)" and not dg[0].orelse
+        if good:
             ctx.ok()
         else:
-            ctx.violation("R6.2", f"_extract_data:{key}", DS, reads[0],
-                          f"_extract_data: {key} must be read from its column, converted with the decimal-comma rule, {'negated under its own marker, ' if negated[key] else ''}and appended to {lst} "
-                          f"(conversion {len(conv)}, negation ok {neg_ok}, append {len(app)}, order {order_ok})")
-    ctx.instance("R6.2", "precedence and polar conversion")
-    t = norm(ed.node)
-    br = [n for n in walk_ordered(ed.node) if isinstance(n, ast.If) and norm(n.test) == "'real' in column_indices and 'imaginary' in column_indices"]
-    good = len(br) == 1 and len(br[0].orelse) == 1 and isinstance(br[0].orelse[0], ast.If) and norm(br[0].orelse[0].test) == "'magnitude' in column_indices and 'phase' in column_indices"
-    good = good and "phase = deg_to_rad(phase)" in t and "Z: complex = cmath.rect(mag, phi)" in t and "for mag, phi in zip(magnitude, phase)" in t \
-        and "real.append(Z.real)" in t and "imaginary.append(Z.imag)" in t and "return (frequency, real, imaginary)" in t
-    dg = [n for n in walk_ordered(ed.node) if isinstance(n, ast.If) and norm(n.test) == "degrees"]
-    good = good and len(dg) == 1 and norm(dg[0].body[0]) == "phase = deg_to_rad(phase)" and not dg[0].orelse
-    if good:
-        ctx.ok()
-    else:
-        ctx.violation("R6.2", "_extract_data:polar", DS, ed.node, "Re/Im columns take precedence; otherwise Z = rect(|Z|, phase) with the phase converted from degrees when `degrees` is set")
+            ctx.violation("R6.2", "_extract_data:polar", DS, ed.node, "Re/Im columns take precedence; otherwise Z = rect(|Z|, phase) with the phase converted from degrees when `degrees` is set")
     dfn = model.fi(DS, "dataframe_to_data_sets")
     t = norm(dfn.node)
     ctx.instance("R6.2", "dataframe_to_data_sets chains detect → extract → split with the same tables")
